@@ -20,9 +20,9 @@ def plan(tier, seed):
                        dict(n=3, m=2, labels='ints', schemes='two', configs='cbc', per=6),
                        dict(n=1, m=2, labels='ints', schemes='two', configs='all')],
             'absent_enum': [dict(n=3, m=2, labels='ints', schemes='six', configs='solver'),
-                            dict(n=3, m=3, labels='ints', schemes='two', configs='solver', per=40)],
+                            dict(space='ext43', labels='ints', schemes='ext1', configs='solver', per=300, reuse=False)],
             'stub': [dict(n=3, m=2, labels='ints', schemes='six', configs='solver'),
-                     dict(n=3, m=3, labels='ints', schemes='two', configs='solver', per=40),
+                     dict(n=3, m=3, labels='ints', schemes='one', configs='solver', per=40),
                      dict(n=1, m=2, labels='ints', schemes='two', configs='all')],
         }
         ker = [dict(n=4, m=1, schemes='four'), dict(n=3, m=2, schemes='six'), dict(n=4, m=2, schemes='one_b', per=100)]
